@@ -2,4 +2,4 @@
 # sweep_seeded.sh [runs] [pattern]: every seeded defect against the check of its property
 V=$(cd "$(dirname "$0")/.." && pwd)
 RUNS=${1:-3000}; PAT=${2:-}
-for d in $V/seeded/*${PAT}*/; do $V/tools/run_seeded.sh $(basename $d) $RUNS; done
+for d in $V/seeded/*${PAT}*/; do $V/tools/run_seeded.sh $(basename $d) $RUNS --max-report 1 --min-candidates 80; done
